@@ -43,6 +43,7 @@ type Ob struct {
 
 // Ctx collects the obligations of one property check.
 type Ctx struct {
+	memoCEWrite int // 0 unknown, 1 nil-safe, 2 not (see ceWriteNilSafe)
 	*Program
 	Prop      string
 	Obs       []Ob
